@@ -198,8 +198,12 @@ func wSelfTest() {
 func wBoot(cfg wConfig) *wWorld {
 	wProcessInit()
 	wSelfTest()
-	wVirt += 24 * time.Hour
+	// Each bubble starts at 2000-01-01: move past the previous case so that process-global id
+	// generators never see time go backwards (but stay well below 2106, where 32-bit expiry
+	// timestamps of tokens wrap).
+	wVirt += wLastElapsed + 2*time.Second
 	time.Sleep(wVirt)
+	wCaseStart = time.Now()
 	mem.A.Reset()
 	if err := store.Store.Open(1, json.RawMessage(wStoreCfg)); err != nil {
 		panic("store open: " + err.Error())
@@ -276,6 +280,7 @@ func wBoot(cfg wConfig) *wWorld {
 
 // shutdown closes every session, stops hub and user cache. The bubble must then end clean.
 func (w *wWorld) shutdown() {
+	defer func() { wLastElapsed = time.Since(wCaseStart) }()
 	for _, ss := range w.sess {
 		w.disconnect(ss)
 	}
@@ -698,6 +703,8 @@ func wInBubble(t *testing.T, fn func()) (failure string) {
 }
 
 var wCur *wWorld
+var wCaseStart time.Time
+var wLastElapsed time.Duration
 
 // wEmergencyStop makes every goroutine that runs on timers exit, without waiting for anything.
 func wEmergencyStop() {
@@ -731,6 +738,7 @@ func wEmergencyStop() {
 	default:
 	}
 	time.Sleep(2 * time.Second)
+	wLastElapsed = time.Since(wCaseStart) + time.Hour
 	func() {
 		defer func() { recover() }()
 		store.Store.Close()
